@@ -544,7 +544,9 @@ def cases_of(sc, R, si):
         out.append(Case(line, impl, clause, cmp=cmp, meta={'sc': si, 'obs': obs or what}))
 
     pre = sc['kind'] if sc['kind'] == 'welch' else sc['method']
-    if sc['kind'] == 'csd' and sc['method'].startswith('multi_taper'):
+    if sc['kind'] == 'csd' and sc['method'].startswith('multi_taper') and n <= 256:
+        # (the joint run costs ~N^2.7 in the spectral model's naive transform: 2.6 s at N = 128, 150 s at 512, > 10 min at 1024 —
+        #  longer records are compared from the exposed spectra only; the estimator itself is C04 / C06)
         # joint run with the spectral model (C04/C06): estimator from the data (tapers, weights as data) + coherence layer
         import c04
         adaptive = sc['method'].endswith('adaptive')
